@@ -197,3 +197,22 @@ _R11 = {
 }
 for _k, _v in _R11.items():
     TEXTS[_k]["text"] += _v
+
+# clauses added after rounds 13-14
+_R14 = {
+    "C03": " Also: the limit reaches the bounded selection unnarrowed and every item is buffered (R06.a, two clauses only).",
+    "C04": " Also: the limit reaches the bounded selection unnarrowed and every item is buffered (R06.a, two clauses only).",
+    "C05": " Also (R05.g): every reduction grows by at most one character; table entries are letters / marks; Lang::new starts with empty tables.",
+    "C06": " Also (R06.i): a hit copies id, title and rating of its record unchanged.",
+    "C07": " Also: the rating reaches its score component without passing through a float.",
+    "C08": " Also (R08.i): a hit copies the rating unchanged; the rating does not pass through a float.",
+    "C09": " Also (R09.k): reduction tables map letters / marks to letters / marks and Lang::new starts with empty tables.",
+    "C12": " Also (R12.k): a hit copies the rating unchanged.",
+    "C13": " Also: the word methods get the normalised chars (R13.g); the limit reaches the bounded selection unnarrowed (R06.a).",
+    "C14": " Also: the limit reaches the bounded selection unnarrowed and every item is buffered (R06.a, two clauses only).",
+    "C15": " Also (R15.o): reduction tables are closed under case including characters that only map TO a key (U+1E9E).",
+    "C16": " Also (R16.e): no narrowing cast to / arithmetic on 8- or 16-bit integers inside the distance code.",
+    "C20": " Also (R20.d): replacing the whole result vector counts as changing its contents.",
+}
+for _k, _v in _R14.items():
+    TEXTS[_k]["text"] += _v
